@@ -13,4 +13,6 @@ if true; then
   rm -rf "$W"/*; ./bin/instrument -repo /repo -out "$W" -rules r2,r3,r4 -rt /verif/rt >/dev/null
   go build -tags verif -overlay "$W/overlay.json" -o "$W/vsched" ./harness/cmd/vcheck
 fi
+rm -rf "$W"/*; ./bin/instrument -repo /repo -out "$W" -rules r2 -rt /verif/rt >/dev/null
+go build -race -tags verif -overlay "$W/overlay.json" -o "$W/vrace" ./harness/cmd/vcheck
 echo setup ok
